@@ -41,26 +41,28 @@ type callCase struct {
 	Derive  string `json:"derive"` // attach | attach-name | walk | walkgetattr | create
 	Method  string `json:"method"`
 
-	Names  [][]byte `json:"names,omitempty"`
-	Name   []byte   `json:"name,omitempty"`
-	Name2  []byte   `json:"name2,omitempty"`
-	Flags  uint32   `json:"flags,omitempty"`
-	Mode   uint32   `json:"mode,omitempty"`
-	UID    uint32   `json:"uid,omitempty"`
-	GID    uint32   `json:"gid,omitempty"`
-	Major  uint32   `json:"major,omitempty"`
-	Minor  uint32   `json:"minor,omitempty"`
-	Offset uint64   `json:"offset,omitempty"`
-	Count  uint32   `json:"count,omitempty"`
-	Data   []byte   `json:"data,omitempty"`
-	Mask   uint16   `json:"mask,omitempty"`
-	SValid uint16   `json:"svalid,omitempty"`
+	Names  [][]byte  `json:"names,omitempty"`
+	Name   []byte    `json:"name,omitempty"`
+	Name2  []byte    `json:"name2,omitempty"`
+	Flags  uint32    `json:"flags,omitempty"`
+	Mode   uint32    `json:"mode,omitempty"`
+	UID    uint32    `json:"uid,omitempty"`
+	GID    uint32    `json:"gid,omitempty"`
+	Major  uint32    `json:"major,omitempty"`
+	Minor  uint32    `json:"minor,omitempty"`
+	Offset uint64    `json:"offset,omitempty"`
+	Count  uint32    `json:"count,omitempty"`
+	Data   []byte    `json:"data,omitempty"`
+	Mask   uint16    `json:"mask,omitempty"`
+	SValid uint16    `json:"svalid,omitempty"`
 	SAttr  [8]uint64 `json:"sattr,omitempty"`
-	PID    int32    `json:"pid,omitempty"`
-	LType  uint8    `json:"ltype,omitempty"`
-	LFlags uint32   `json:"lflags,omitempty"`
-	Start  uint64   `json:"start,omitempty"`
-	Length uint64   `json:"length,omitempty"`
+	PID    int32     `json:"pid,omitempty"`
+	LType  uint8     `json:"ltype,omitempty"`
+	LFlags uint32    `json:"lflags,omitempty"`
+	Start  uint64    `json:"start,omitempty"`
+	Length uint64    `json:"length,omitempty"`
+
+	Msize uint32 `json:"msize,omitempty"` // 0: 256 KiB (every call fits one message); xattr reads also run with small limits
 
 	PreRename []byte `json:"pre_rename,omitempty"`
 	// Follow: after a call that the backend failed, another handle on the same
@@ -84,7 +86,9 @@ type callCase struct {
 
 // --- conversions between the API's types and the reference codec's ---------
 
-func qidP(q [3]uint64) p9.QID { return p9.QID{Type: p9.QIDType(q[0]), Version: uint32(q[1]), Path: q[2]} }
+func qidP(q [3]uint64) p9.QID {
+	return p9.QID{Type: p9.QIDType(q[0]), Version: uint32(q[1]), Path: q[2]}
+}
 func qidR(q p9.QID) refcodec.QID {
 	return refcodec.QID{Type: uint8(q.Type), Version: q.Version, Path: q.Path}
 }
@@ -188,7 +192,11 @@ type callStats struct {
 func frameOf(f tapFrame) (*refcodec.Msg, error) { return refcodec.DecodeStrict(f.Raw) }
 
 func runCallCase(c callCase, st *callStats) *fail {
-	r, f := newRig(c.Version, c.Native, 256<<10)
+	msize := uint32(256 << 10)
+	if c.Msize != 0 {
+		msize = c.Msize
+	}
+	r, f := newRig(c.Version, c.Native, msize)
 	if f != nil {
 		return f
 	}
@@ -1202,11 +1210,17 @@ func genCallCase(rt *rapid.T) callCase {
 			c.Err = nil
 		}
 	case "GetXattr":
-		n := rapid.SampledFrom([]int{0, 1, 5, 100, 5000}).Draw(rt, "xn")
+		// values larger than one message payload are read back in several Treads
+		c.Msize = uint32(rapid.SampledFrom([]int{0, 0, 4096, 8192}).Draw(rt, "xmsize"))
+		n := rapid.SampledFrom([]int{0, 1, 5, 100, 5000, 4085, 4086, 8181, 8182, 20000}).Draw(rt, "xn")
 		c.RData = rapid.SliceOfN(rapid.Byte(), n, n).Draw(rt, "xdata")
 		c.Name = []byte(rapid.SampledFrom([]string{"user.a", "security.selinux", "x"}).Draw(rt, "xname"))
 	case "ListXattrs":
 		n := rapid.IntRange(0, 5).Draw(rt, "xl")
+		c.Msize = uint32(rapid.SampledFrom([]int{0, 0, 4096}).Draw(rt, "xmsize"))
+		if c.Msize != 0 && rapid.Bool().Draw(rt, "xlong") {
+			n = rapid.IntRange(400, 1200).Draw(rt, "xl2") // a name list longer than one payload
+		}
 		for i := 0; i < n; i++ {
 			c.RStrs = append(c.RStrs, []byte(rapid.StringMatching(`[a-z.]{1,10}`).Draw(rt, "xs")))
 		}
